@@ -242,4 +242,22 @@ theorem fdwra_scale (p : FdwraParams ℝ) (c : ℝ) (hc : 0 < c) (s : HvTrad ℝ
 theorem limits_value : (lit fdwraLimits.1 : ℝ) = 0.01 ∧ (lit fdwraLimits.2 : ℝ) = 0.01 := by
   constructor <;> simp [fdwraLimits] <;> norm_num
 
+/-- **The stopping rule is strict**: the convergence test of an iteration passes iff both changes are *below* 0.01 -- a change that
+equals 0.01 exactly does not stop the loop (the boundary exercised by the exact-tie stream of `harness/c06.py`, seed C06-V). -/
+theorem conv_iff_both_below (d s : ℝ) :
+    (optLt (some d) (some (lit fdwraLimits.1 : ℝ)) && optLt (some s) (some (lit fdwraLimits.2 : ℝ))) = true ↔ d < 0.01 ∧ s < 0.01 := by
+  rw [limits_value.1, limits_value.2]
+  simp [optLt]
+
+/-- at the tie: `d_diff = 0.01` exactly is not converged, however small `s_diff` is -/
+theorem conv_false_at_tie (s : ℝ) :
+    (optLt (some (0.01 : ℝ)) (some (lit fdwraLimits.1 : ℝ)) && optLt (some s) (some (lit fdwraLimits.2 : ℝ))) = false := by
+  rw [limits_value.1, limits_value.2]
+  simp [optLt]
+
+/-- an undefined change (a NaN statistic) never counts as converged -/
+theorem conv_false_undefined (s : Option ℝ) :
+    (optLt (none : Option ℝ) (some (lit fdwraLimits.1 : ℝ)) && optLt s (some (lit fdwraLimits.2 : ℝ))) = false := by
+  simp [optLt]
+
 end HV.C06
